@@ -656,6 +656,7 @@ impl Rt {
     }
 
     pub fn log_api(&self, v: Value) {
+        let _h = crate::heap::harness();
         let mut st = self.lock();
         if st.abort || st.mute {
             return;
@@ -665,6 +666,7 @@ impl Rt {
 
     /// Scheduling point. Returns when this thread holds the baton.
     pub fn sched(&self, kind: K, addr: usize, arg: usize) {
+        let _h = crate::heap::harness();
         let tid = match TID.with(|c| c.get()) {
             Some(t) => t,
             None => return,
@@ -704,6 +706,7 @@ impl Rt {
 
     /// Report of a performed op
     pub fn done(&self, kind: K, addr: usize, arg: usize, val: usize, ok: bool) {
+        let _h = crate::heap::harness();
         let tid = match TID.with(|c| c.get()) {
             Some(t) => t,
             None => return,
@@ -888,6 +891,7 @@ impl vh::Runtime for Rt {
         self.done(K::Shim(kind), addr, arg, val, ok);
     }
     fn on_retire(&self, addr: usize) {
+        let _h = crate::heap::harness();
         let mut st = self.lock();
         let e = st.cur_epoch;
         st.retired.insert(addr, e);
@@ -910,6 +914,7 @@ impl vh::Runtime for Rt {
         }
     }
     fn on_alloc(&self, addr: usize, bytes: usize, ty: &'static str) {
+        let _h = crate::heap::harness();
         let mut st = self.lock();
         if ty.contains("MemToken") {
             st.live_tokens += 1;
@@ -924,6 +929,7 @@ impl vh::Runtime for Rt {
         }
     }
     fn on_dealloc(&self, addr: usize, bytes: usize, align: usize) -> bool {
+        let _h = crate::heap::harness();
         let mut st = self.lock();
         let known = st.allocs.remove(&addr);
         if st.retired.contains_key(&addr) {
